@@ -780,6 +780,29 @@ KERNELS = [(_gen_src(m), "Src_%s.v" % m) for m in srcfacts.MODULES] + [(gen_retr
            (gen_throttle, "ThrottleGen.v"), (gen_proxy, "ProxyGen.v"), (gen_bind, "BindGen.v"), (gen_apply, "ApplyGen.v")]
 
 
+import skel2coq      # noqa: E402
+
+
+def gen_cos_skel():
+    """the concurrent skeleton of CancelOnShutdownExecutor (IR of Model/CosIR.v), see tools/skel2coq.py"""
+    try:
+        skel2coq.generate()
+    except skel2coq.Unsupported as e:
+        raise Unsupported(str(e))
+
+
+def gen_gate_skel():
+    """helpers.ShutdownHelper on its own, for Model/GateIR.v"""
+    try:
+        skel2coq.generate("GateSkel.v")
+    except skel2coq.Unsupported as e:
+        raise Unsupported(str(e))
+
+
+KERNELS.append((gen_cos_skel, "CosSkel.v"))
+KERNELS.append((gen_gate_skel, "GateSkel.v"))
+
+
 def main():
     """Each kernel file is generated on its own.  A source shape the translator does not recognise fails CLOSED for
     that kernel only: its Gen file is replaced by one that does not compile, so every model / theorem that imports it
